@@ -471,12 +471,17 @@ Fixpoint opt_order (fuel : nat) (fs : list chunk) (n : nat) (acc : list Z) (* re
       end
   end.
 
+(* the chunk graph of a body (fuel: far more than any script needs; exhausted fuel is reported, never silently wrong) *)
+Definition work_fuel : nat := 10000.
+Definition emit_graph (body : list stmt) : res wst :=
+  work work_fuel {| remaining := [mk 0 (-1) body None]; finals := []; counter := 0; brk := []; org := [] |}.
+(* the chunk order: ascending ids, or the fall-through chains of optimizeChunkOrder *)
+Definition order_of (optimize : bool) (G : list chunk) : list Z :=
+  let n := List.length G in if optimize then opt_order (S (2 * n)) G n [] else range n 0.
+
 Definition emit_script (name : text) (glob : bool) (optimize : bool) (body : list stmt) : res (list instr) :=
-  match work 10000 {| remaining := [mk 0 (-1) body None]; finals := []; counter := 0; brk := []; org := [] |} with
-  | Ok w =>
-      let n := List.length (finals w) in
-      let order := if optimize then opt_order (S (2 * n)) (finals w) n [] else range n 0 in
-      render_chunks name glob (finals w) order
+  match emit_graph body with
+  | Ok w => render_chunks name glob (finals w) (order_of optimize (finals w))
   | ErrBreak => ErrBreak | ErrContinue => ErrContinue | OutOfFuel => OutOfFuel | ErrLabel tk b => ErrLabel tk b
   end.
 
